@@ -16,6 +16,7 @@ RULE = (
     "calling filter_eligible_plates directly and through select_next_plate (batch ids as list, tuple, set, frozenset, dict keys or numpy integers) with scores making the pick the unique minimum (disallowed candidates score better still) or with all scored plates exactly tied (the selection must stay within the allowed set and the history follows it); in half the cases every selected plate is revealed in place before the next selection of the batch, as the retrospective pipeline does; plus screens "
     "with a multi-sample plate (must be refused). Non-trivial = history completes >=1 sample and opens a second. distinct = distinct case JSON."
     ' Also: late-campaign screens (dozens of unobserved plates spread over hundreds of ids) with score entries delivered twice; a generator whose draws repeat in half the cases.'
+    ' Half the cases hand select_next_plate stale ids as well (-1, ids beyond the screen).'
 )
 ASSUMPTIONS = [
     "histories start from an empty batch and only follow selections the policy itself allowed (the quantifier of the property)",
@@ -52,6 +53,7 @@ def _case(draw):
         # some score entries arrive twice (a chunk of scores delivered again after a retry): the holder takes them, the selection must
         # not be affected
         "dup_scores": draw(st.booleans()),
+        "stale_ids": draw(st.booleans()),
     }
 
 
@@ -64,7 +66,7 @@ def exhaustive(tier):
     # (one sample with many plates left, others with just k), scores with repeated entries
     for k, many, obs, picks in [(2, 26, 200, [0, 1, 1, 2]), (3, 40, 150, [5, 1, 2, 1, 0, 4]), (2, 26, 200, [1, 3, 0, 2])] + ([(2, 60, 400, [1, 4, 7, 2]), (1, 30, 300, [2, 9]), (4, 35, 120, [1, 2, 4, 5, 7, 8, 1, 2])] if tier != "quick" else []):
         samples = [{"unobs": many, "obs": obs, "rows": 1}, {"unobs": k, "obs": obs, "rows": 1}, {"unobs": k, "obs": obs // 2, "rows": 1}]
-        yield {"k": k, "samples": samples, "picks": picks, "via_select": True, "merges": [], "reveal_selected": False, "name_keys": [(i * 37 + 11) % 100 for i in range(40)], "multi": False, "multi_observed": False, "dup_scores": True, "select_every_step": True, "prefer_sample": "s0"}
+        yield {"k": k, "samples": samples, "picks": picks, "via_select": True, "merges": [], "reveal_selected": False, "name_keys": [(i * 37 + 11) % 100 for i in range(40)], "multi": False, "multi_observed": False, "dup_scores": True, "select_every_step": True, "prefer_sample": "s0", "stale_ids": k % 2 == 0}
 
 
 def _build(case):
@@ -154,6 +156,14 @@ def check_case(case):
             return {"nontrivial": True, "labels": ["multi-sample-plate-refused"]}
         raise Violation("multi_sample.refused", "policy accepted a candidate plate that contains two samples")
 
+    def with_stale(b, step_):
+        # the pipeline hands every earlier selection of the batch to the next step, among them the marker -1 it records when nothing
+        # was allowed (and, after a re-plan, ids the current screen no longer has): ids that name no plate take part in nothing
+        if not case.get("stale_ids"):
+            return b
+        extra_ = [[-1], [-1, -1], [10**6], [-1, len(plates) + 3]][(step_ + len(b)) % 4]
+        return (list(b) + extra_) if step_ % 2 else (extra_ + list(b))
+
     batch = []
     completed = 0
     opened = 0
@@ -195,7 +205,7 @@ def check_case(case):
                 sh = ChunkedScoresHolder(len(candidates))
                 for c in sorted(candidates):
                     sh.add_score(c, 0.0)
-                r, _kind = S.call_with_container(lambda b_: select_next_plate(scores=sh, screen=screen, policy=policy, batch_plate_ids=b_, rng=rng), batch, S.CONTAINERS[(step + k) % len(S.CONTAINERS)])
+                r, _kind = S.call_with_container(lambda b_: select_next_plate(scores=sh, screen=screen, policy=policy, batch_plate_ids=b_, rng=rng), with_stale(batch, step), S.CONTAINERS[(step + k) % len(S.CONTAINERS)])
                 require(r is None, "select.none_when_nothing_allowed", "select_next_plate returned a plate although the policy allows none")
             break
         pool_ = [g for g in got_ids if sample_of[g][0] == case.get("prefer_sample")] or got_ids
@@ -210,7 +220,7 @@ def check_case(case):
                 # either the pick is the unique minimum among the allowed plates (disallowed ones score better still), or every
                 # scored plate - allowed or not - has exactly the same score (equally sized plates under the size scorer)
                 sh.add_score(c, 1.5 if tie else (-5.0 if c == chosen else (-9.0 if c not in got_ids else float(c))))
-            r, _kind = S.call_with_container(lambda b_: select_next_plate(scores=sh, screen=screen, policy=policy, batch_plate_ids=b_, rng=rng), batch, S.CONTAINERS[(step + pick) % len(S.CONTAINERS)])
+            r, _kind = S.call_with_container(lambda b_: select_next_plate(scores=sh, screen=screen, policy=policy, batch_plate_ids=b_, rng=rng), with_stale(batch, step), S.CONTAINERS[(step + pick) % len(S.CONTAINERS)])
             if tie:
                 require(r is not None and int(r.plate_id) in got_ids, "select.tie_stays_within_allowed", lambda: "all scored plates tie; select_next_plate returned %r, which the policy does not allow (allowed %r)" % (None if r is None else int(r.plate_id), got_ids))
                 chosen = int(r.plate_id)
